@@ -17,6 +17,9 @@
 //!             scenario, depth <= 2): see `reent`. Nested operations are concurrent with the
 //!             operation they run inside; the history is checked with the extended checker.
 //!             In `mt` the same seam only yields (0-4 times per callback).
+//! * `storm` — 10-30 tiny `mt`-like rounds per scenario on 2-3 persistent threads, each over a fresh
+//!             event, lined up by a Relaxed rendezvous right before the racing operations and judged
+//!             on its own (windows without user code need many aligned attempts): see `storm`.
 //! * `known-reent-waker-drop-under-lock` — reproduces the known finding of that name.
 //! * `aset`  — `awaiter_set::AwaiterSet` operation histories against a list model (native bulk and
 //!             a Miri sample for the intrusive pointers).
@@ -28,6 +31,7 @@ mod aset;
 mod lin;
 mod reent;
 mod spec;
+mod storm;
 mod waker;
 
 use std::future::Future;
@@ -1254,6 +1258,7 @@ fn main() {
             entry::<EvScenario>("C08", "reent", "thread-safe events on one thread; waker callbacks (wake / clone / drop) perform nested set / reset / try_wait / poll / drop on the same event (depth <= 2); linearizability with nested operations concurrent to their outer operation"),
             entry::<EvScenario>("C08", "local-reent", "the same for LocalAutoResetEvent / LocalManualResetEvent (re-entrancy is their only form of interleaving)"),
             entry::<EvScenario>("C08", "known-reent-waker-drop-under-lock", "known finding: a stored waker is dropped inside the event's critical section; a re-entrant Drop re-enters the waiter list (local events: waker released twice)"),
+            entry::<storm::StormScenario>("C08", "storm", "10-30 tiny concurrent rounds per scenario on 2-3 persistent threads (fresh thread-safe event per round, rendezvous right before the racing operations); at least half are the core two-operation races; every round judged on its own like an mt history"),
             entry::<aset::AsetScenario>("C08", "aset", "awaiter_set::AwaiterSet operation histories against a list model"),
         ],
     )
